@@ -421,6 +421,7 @@ func c10(r *eng.Run) {
 	}
 	sweepTight = false
 	r.Set("reentrant_handler_runs", c10Reentrant(r))
+	r.Set("buffer_handover_runs", c10BufferHandover(r))
 	r.Set("api_sweep_extra_inputs", len(extra))
 	e1Evidence(r, D, K, results...)
 	r.Set("hostile_handler_executions", hostileExecs)
@@ -704,6 +705,69 @@ func c10Reentrant(r *eng.Run) int {
 					}
 					if bad != "" {
 						r.Violation(eng.Replay{Engine: "api", Entry: bad, Sig: bad + "/" + a + "+" + b, InputB64: w, Expected: "returns normally with 0<=p<=len when err==nil", Got: got})
+					}
+				}
+			}
+		}
+	}
+	return runs
+}
+
+// c10BufferHandover: one Buffer used by one entry point on a document nested d1 deep, then by
+// another (or the same) entry point on a document nested d2 > d1 deep, for every ordered pair of
+// the five Buffer-taking entry points and every (d1, d2) with d1 <= 20, d2 - d1 <= 8 (also after a
+// failed first call): whatever length / capacity / contents the first leaves, the second returns.
+func c10BufferHandover(r *eng.Run) int {
+	type ep struct {
+		name string
+		f    func(w []byte, b *rjson.Buffer) (int, error)
+	}
+	decl := rjson.ArrayValueHandlerFunc(func([]byte) (int, error) { return 0, nil })
+	declO := rjson.ObjectValueHandlerFunc(func(_, _ []byte) (int, error) { return 0, nil })
+	eps := []ep{
+		{"Valid", func(w []byte, b *rjson.Buffer) (int, error) { rjson.Valid(w, b); return 0, nil }},
+		{"SkipValue", func(w []byte, b *rjson.Buffer) (int, error) { return rjson.SkipValue(w, b) }},
+		{"SkipValueFast", func(w []byte, b *rjson.Buffer) (int, error) { return rjson.SkipValueFast(w, b) }},
+		{"HandleArrayValues", func(w []byte, b *rjson.Buffer) (int, error) { return rjson.HandleArrayValues(w, decl, b) }},
+		{"HandleObjectValues", func(w []byte, b *rjson.Buffer) (int, error) {
+			return rjson.HandleObjectValues(append([]byte(`{"k":`), append(append([]byte(nil), w...), '}')...), declO, b)
+		}},
+	}
+	doc := func(d int, broken bool) []byte {
+		s := strings.Repeat("[", d) + "1" + strings.Repeat("]", d)
+		if d%2 == 1 {
+			s = strings.Repeat(`[{"a":`, d/2) + "[2]" + strings.Repeat("}]", d/2)
+		}
+		if broken {
+			s = s[:len(s)-d/2-1]
+		}
+		return eng.Exact([]byte(s))
+	}
+	runs := 0
+	for d1 := 1; d1 <= 20; d1++ {
+		for d2 := d1 + 1; d2 <= d1+8; d2++ {
+			for _, broken := range []bool{false, true} {
+				w1, w2 := doc(d1, broken), doc(d2, false)
+				for _, a := range eps {
+					for _, b := range eps {
+						runs++
+						eng.Beat(w2)
+						var buf rjson.Buffer
+						var p int
+						var err error
+						pan := guard(func() {
+							a.f(w1, &buf)
+							p, err = b.f(w2, &buf)
+						})
+						bad, got := "", ""
+						if pan != "" {
+							bad, got = b.name+"(Buffer last used by "+a.name+")/panic", pan
+						} else if err == nil && (p < 0 || p > len(w2)+6) {
+							bad, got = b.name+"(Buffer last used by "+a.name+")/offset-range", fmt.Sprint(p)
+						}
+						if bad != "" {
+							r.Violation(eng.Replay{Engine: "api", Entry: bad, Sig: fmt.Sprintf("%s/d1=%d/d2=%d/broken=%v", bad, d1, d2, broken), InputB64: w2, History: []string{a.name + " on " + string(w1), b.name + " on " + string(w2)}, Expected: "returns normally with 0<=p<=len when err==nil", Got: got})
+						}
 					}
 				}
 			}
